@@ -16,8 +16,9 @@ def pack(c):
 def main():
     out, prog, others = sys.argv[1], sys.argv[2], sys.argv[3:]
     src = nm.read(prog)
+    extra = tuple(x for x in os.environ.get('C20_FLAGS', '').split() if x)
     res = {}
-    res['fresh'] = pack(nm.compile_src(src))
+    res['fresh'] = pack(nm.compile_src(src, extra))
     junk = []
     for o in others:
         try:
@@ -25,13 +26,13 @@ def main():
         except Exception:
             pass
         junk.append([object() for _ in range(1000)])
-    res['after-others'] = pack(nm.compile_src(src))
+    res['after-others'] = pack(nm.compile_src(src, extra))
     del junk
     gc.collect()
     pad = [bytearray(64) for _ in range(5000)]
     del pad[::2]
-    res['twice-1'] = pack(nm.compile_src(src))
-    res['twice-2'] = pack(nm.compile_src(src))
+    res['twice-1'] = pack(nm.compile_src(src, extra))
+    res['twice-2'] = pack(nm.compile_src(src, extra))
     gc.collect()
     with open(out, 'wb') as f:
         pickle.dump(res, f)
